@@ -168,6 +168,167 @@ def worker(args):
     return hutil.export(chk)
 
 
+GEN_REPLAY = r"""
+# Replay for C25 (generator side): an out-of-line ABI module with the given typedef / struct / enum / function
+# names, optionally using FILE without declaring it; every declared name must be found by the runtime.
+import sys, os, json, tempfile, importlib, atexit, shutil
+import cffi
+case = json.loads(%r)
+d = tempfile.mkdtemp(); atexit.register(shutil.rmtree, d, True)
+ffi = cffi.FFI()
+src = []
+for i, n in enumerate(case['typedefs']): src.append('typedef struct { int f%%d; } %%s;' %% (i, n))
+for i, n in enumerate(case['structs']): src.append('struct %%s { int g%%d; };' %% (n, i))
+for i, n in enumerate(case['enums']): src.append('enum %%s { EN_%%d_A, EN_%%d_B };' %% (n, i, i))
+for i, n in enumerate(case['globals']): src.append('int %%s(int);' %% n)
+if case['use_file']: src.append('void _c25_use_file(FILE *);')
+ffi.cdef('\n'.join(src))
+ffi.set_source('_c25_gen_replay', None)
+ffi.emit_python_code(os.path.join(d, '_c25_gen_replay.py'))
+sys.path.insert(0, d)
+m = importlib.import_module('_c25_gen_replay')
+bad = []
+for kind, pre in (('typedefs', ''), ('structs', 'struct '), ('enums', 'enum ')):
+    for n in case[kind]:
+        try:
+            t = m.ffi.typeof(pre + n)
+            if t.cname != pre + n:
+                bad.append('declared %%r resolves to %%r' %% (pre + n, t.cname))
+        except Exception as e:
+            bad.append('declared %%r not found: %%s' %% (pre + n, e))
+if case['use_file']:
+    try: m.ffi.typeof('FILE')
+    except Exception as e: bad.append('FILE not found: %%s' %% e)
+for b in bad: print('VIOLATED:', b)
+sys.exit(1 if bad else 0)
+"""
+
+
+class DeclName(object):
+    """the key 'kind name' of Parser._declarations with a symbolic name part: ordered like the string"""
+
+    def __init__(self, kind, name):
+        self.kind, self.name = kind, name
+
+    def split(self, sep, n):
+        assert sep == ' ' and n == 1
+        return [self.kind, self.name]
+
+    def __hash__(self):
+        return hash(self.kind)
+
+    def __eq__(self, o):
+        return isinstance(o, DeclName) and self.kind == o.kind and bool(self.name == o.name)
+
+    def __lt__(self, o):
+        if self.kind != o.kind:
+            return self.kind < o.kind
+        return bool(self.name < o.name)
+
+    def __repr__(self):
+        return '%s %r' % (self.kind, self.name)
+
+
+def gen_worker(args):
+    """the real Recompiler.collect_type_table + collect_step_tables on declarations whose names are symbolic:
+    every searchable table comes out strictly increasing in byte order (the precondition of the C search)"""
+    prop, tier, kind, lens, use_file, target_py = args
+    chk = hutil.sub_check(prop, tier)
+    import os, sys
+    sys.path.insert(0, os.path.join(common.REPO, 'src'))
+    from vf import pysym, symstr
+    import cffi
+    from cffi import recompiler, model
+    label = 'generator:%s:lens=%s:%s%s' % ('py' if target_py else 'c', ','.join(map(str, lens)), 'implicit-FILE' if use_file else 'no-FILE',
+                                            '')
+    ex = pysym.PyExplorer()
+    IDENT = [c for c in range(128) if chr(c).isalnum() or chr(c) == '_']
+
+    def replay(case):
+        def txt(prefix, k):
+            return ''.join(chr(case['%s%d[%d]' % (prefix, k, i)]) for i in range(lens[k]))
+        names = [txt('n', k) for k in range(len(lens))]
+        c = {'typedefs': names[0:2], 'structs': names[2:3], 'enums': [], 'globals': names[3:4], 'use_file': use_file}
+        if len(set(names)) != len(names) or any(n[0].isdigit() for n in names) or 'FILE' in names or '_IO_FILE' in names:
+            return None, None
+        path = chk.write_replay('generator', GEN_REPLAY % json.dumps(c))
+        rc, out = common.run_replay(path, timeout=120)
+        return common.replay_verdict(rc, out), path
+
+    def h(ex):
+        ffi = cffi.FFI()
+        ffi.cdef("typedef struct { int f0; } T0; typedef struct { int f1; } T1; struct S0 { int g0; }; int G0(int);"
+                 + (" void _c25_use_file(FILE *);" if use_file else ""))
+        syms = []
+        for k, n in enumerate(lens):
+            sname = symstr.SymStr.fresh(ex, 'n%d' % k, n)
+            for i, c in enumerate(sname.chars):
+                ex.add_definition(z3.Or(*[c == v for v in IDENT]))
+            ex.add_definition(z3.Not(z3.And(sname.chars[0] >= 48, sname.chars[0] <= 57)))
+            syms.append(sname)
+        # names of one namespace are distinct and differ from the implicit FILE / _IO_FILE
+        def differ(a, b):
+            t = a._eq_term(b)
+            if t is not False:
+                ex.add_definition(z3.Not(t) if t is not True else z3.BoolVal(False))
+        differ(syms[0], syms[1])
+        for sname in syms[:2]:
+            differ(sname, 'FILE')
+        differ(syms[2], '_IO_FILE')
+        differ(syms[3], '_c25_use_file')
+        decls = ffi._parser._declarations
+        new = {}
+        ren = {'typedef T0': ('typedef', syms[0]), 'typedef T1': ('typedef', syms[1]), 'struct S0': ('struct', syms[2]),
+               'function G0': ('function', syms[3])}
+        for key, val in decls.items():
+            if key in ren:
+                kind_, sn = ren[key]
+                if kind_ == 'struct':
+                    val[0].name = sn
+                new[DeclName(kind_, sn)] = val
+            else:
+                kind_, nm = key.split(' ', 1)
+                new[DeclName(kind_, nm)] = val
+        ffi._parser._declarations = new
+        r = recompiler.Recompiler(ffi, '_c25_mod', target_is_python=target_py)
+        r.collect_type_table()
+        r.collect_step_tables()
+        inputs = {}
+        for k, sname in enumerate(syms):
+            for i, c in enumerate(sname.chars):
+                inputs['n%d[%d]' % (k, i)] = c
+        hutil.witness(chk, ex, label + ':tables-built')
+        for step in ('global', 'struct_union', 'enum', 'typename'):
+            lst = r._lsts[step]
+            names = [e.name for e in lst]
+            for i in range(len(names) - 1):
+                a, b = names[i], names[i + 1]
+                la = a.chars if isinstance(a, symstr.SymStr) else [ord(ch) for ch in a]
+                lb = b.chars if isinstance(b, symstr.SymStr) else [ord(ch) for ch in b]
+                t = symstr.SymStr(ex, [])._lt_term(la, lb, False)
+                hutil.discharge(chk, ex, '%s:%s-table:entry%d<entry%d' % (label, step, i, i + 1),
+                                t if not isinstance(t, bool) else t, inputs, replay=replay)
+        # every declared name is in its table exactly once
+        tn = [e.name for e in r._lsts['typename']]
+        want = syms[:2] + (['FILE'] if use_file else [])
+        hutil.discharge(chk, ex, label + ':typename-table-has-every-typedef', len(tn) == len(want), inputs, replay=replay)
+
+    res = ex.explore(h, max_paths=20000)
+    hutil.finish_explore(chk, ex, res, label)
+    if not chk.witnesses:
+        chk.inconc(label + ': no path reached the obligations')
+    chk.functions = [{'name': n, 'file': 'src/cffi/recompiler.py'} for n in
+                     ('Recompiler.collect_type_table', 'Recompiler.collect_step_tables', 'Recompiler._generate',
+                      'Recompiler._add_missing_struct_unions', 'Recompiler._typedef_ctx', 'Recompiler._struct_ctx')]
+    return hutil.export(chk)
+
+
+def dispatch(args):
+    if args[2] == 'gen':
+        return gen_worker(args)
+    return worker(args)
+
+
 def run(chk):
     quick = chk.tier == 'quick'
     P = (chk.prop, chk.tier)
@@ -182,11 +343,17 @@ def run(chk):
             cases.append(P + (N, ML, slen, 40, True))
     chk.bounds = {'table entries': '0..%d' % NMAX, 'name length': '1..%d arbitrary non-NUL bytes (symbolic length)' % ML,
                   'search length': '0..%d arbitrary non-NUL bytes, not NUL-terminated' % ML, 'item sizes': [16, 24, 40]}
-    chk.outside = ['that the code generator sorts the tables by name in byte order (Recompiler.collect_step_tables / '
-                   'collect_type_table): Python str order == strcmp order holds for ASCII identifiers',
+    for lens in ([(1, 1, 1, 1), (4, 4, 8, 1), (5, 3, 7, 13)] if quick else
+                 [(1, 1, 1, 1), (2, 1, 1, 2), (4, 4, 8, 1), (3, 4, 8, 1), (5, 3, 7, 13), (4, 5, 8, 13), (6, 6, 2, 3)]):
+        for use_file in (False, True):
+            for target_py in (False, True):
+                cases.append(P + ('gen', lens, use_file, target_py))
+    chk.outside = ['generator side beyond the bound: two typedefs, one struct, one function with symbolic identifier names of the '
+                   'listed lengths (any identifier characters), with and without an implicit FILE, C and Python targets; '
+                   'Python str order == strcmp order holds for ASCII identifiers',
                    'tables larger than the bound (the loop is a plain binary search: log2(N)+1 iterations, '
                    'unwinding assertion at 8)']
     chk.assume('precondition: table strictly increasing in unsigned byte (strcmp) order')
     chk.assume('strncmp modelled per its C contract (vf/llsym.py LIBC)')
     irgen.backend()
-    hutil.run_cases(chk, cases, worker)
+    hutil.run_cases(chk, cases, dispatch)
